@@ -246,8 +246,11 @@ Numbers(o) == [i \in 1..Len(o.rows) |-> o.rows[i].n]
 \* the sequence is empty  <=>  the else branch, and nothing else can go wrong
 C_Renders(p, o)   == ~o.crashed /\ (o.empty <=> p.L = 0) /\ (~o.empty => Len(o.rows) >= 1)
 
+\* a recording that shows nothing at all (neither rows nor the else branch) fails Renders and is not indexed further
+Shown(o) == ~o.empty /\ ~o.crashed /\ o.rows # <<>>
+
 \* displayed elements are contiguous s..e with 1 <= s <= e <= L
-C_InRange(p, o)   == (~o.empty /\ ~o.crashed) =>
+C_InRange(p, o)   == Shown(o) =>
                        LET n == Numbers(o) IN
                          /\ n[1] >= 1 /\ n[Len(n)] <= p.L
                          /\ \A i \in 1..Len(n) - 1 : n[i + 1] = n[i] + 1
@@ -258,30 +261,30 @@ WinE(o) == o.rows[Len(o.rows)].n
 \* "the window ending at start+size-1 unless fewer than orphan elements would remain after it,
 \*  in which case it runs to the end" -- for requests that give a start inside the sequence (or
 \*  none, meaning 1), a size, and no end
-C_Ends(p, o)      == (~o.empty /\ ~o.crashed /\ p.size >= 1 /\ p.end <= 0 /\ p.start <= p.L) =>
+C_Ends(p, o)      == (Shown(o) /\ p.size >= 1 /\ p.end <= 0 /\ p.start <= p.L) =>
                        LET s  == IF p.start > 0 THEN p.start ELSE 1
                            e1 == s + p.size - 1
                        IN /\ WinS(o) = s
                           /\ WinE(o) = IF p.L - e1 >= p.orphan THEN e1 ELSE p.L
 
 \* explicit start and end inside the sequence are displayed as given
-C_Explicit(p, o)  == (~o.empty /\ ~o.crashed /\ p.start > 0 /\ p.end >= p.start /\ p.end <= p.L) =>
+C_Explicit(p, o)  == (Shown(o) /\ p.start > 0 /\ p.end >= p.start /\ p.end <= p.L) =>
                        (WinS(o) = p.start /\ WinE(o) = p.end)
 
-C_NextIff(p, o)   == (~o.empty /\ ~o.crashed) =>
+C_NextIff(p, o)   == Shown(o) =>
                        /\ o.rows[Len(o.rows)].next = (IF WinE(o) < p.L THEN 1 ELSE 0)
                        /\ \A i \in 1..Len(o.rows) - 1 : o.rows[i].next = 0
-C_PrevIff(p, o)   == (~o.empty /\ ~o.crashed) =>
+C_PrevIff(p, o)   == Shown(o) =>
                        /\ o.rows[1].prev = (IF WinS(o) > 1 THEN 1 ELSE 0)
                        /\ \A i \in 2..Len(o.rows) : o.rows[i].prev = 0
 
 \* announced neighbours (clamped into 1..L, see DESIGN C11)
-C_NextStart(p, o) == (~o.empty /\ ~o.crashed /\ o.rows[Len(o.rows)].next = 1) =>
+C_NextStart(p, o) == (Shown(o) /\ o.rows[Len(o.rows)].next = 1) =>
                        o.rows[Len(o.rows)].ns = Max(1, WinE(o) + 1 - p.overlap)
-C_PrevEnd(p, o)   == (~o.empty /\ ~o.crashed /\ o.rows[1].prev = 1) =>
+C_PrevEnd(p, o)   == (Shown(o) /\ o.rows[1].prev = 1) =>
                        o.rows[1].pe = Min(p.L, WinS(o) - 1 + p.overlap)
 
-C_StartEndFlags(p, o) == (~o.empty /\ ~o.crashed) =>
+C_StartEndFlags(p, o) == Shown(o) =>
                        \A i \in 1..Len(o.rows) :
                           /\ o.rows[i].st = (IF i = 1 THEN 1 ELSE 0)
                           /\ o.rows[i].en = (IF i = Len(o.rows) THEN 1 ELSE 0)
